@@ -148,13 +148,13 @@ def step (s : Sess) (c : Cmd) : Sess × String × String :=
   let to := let t := c.nat "to" 1; if t < NSLOT then t else 1
   let x := c.arg 0
   let y := c.arg 1
-  match c.op with
-  | "new" | "new_default" =>
-    let isNew := c.op == "new"
-    let cap := if isNew then c.nat "cap" Gen.ARRAY_DEFAULT_CAPACITY else Gen.ARRAY_DEFAULT_CAPACITY
+  let capOf (isNew : Bool) : Nat := if isNew then c.nat "cap" Gen.ARRAY_DEFAULT_CAPACITY else Gen.ARRAY_DEFAULT_CAPACITY
+  let tooBig (isNew : Bool) : Bool := decide (2 ^ 24 < capOf isNew ∧ capOf isNew * 8 ≤ 2 ^ 40)
+  -- construction shared by `new`, `new_default`, `mk_new`, `mk_new_default` (`isNew`: configured triple and
+  -- the line's cap= / exp=; otherwise the library defaults and the C library triple)
+  let build (isNew : Bool) (m : Mem) : Stat × Option Arr × Mem × Stat :=
+    let cap := capOf isNew
     let f := effFactor (match (if isNew then c.str "exp" else none) with | some e => parseF32 e | none => defaultFactor)
-    -- blocks the driver cannot materialise although the harness allocator would serve them
-    if 2 ^ 24 < cap ∧ cap * 8 ≤ 2 ^ 40 then ({ blind := true }, "S ?", "M ?") else
     -- a request above 2^40 bytes is refused by the harness allocator (`refuse_now` in common.h, counted
     -- as `absurd=`, not as a scheduled refusal): the buffer is the 2nd allocator call
     let absurd := cap * 8 > 2 ^ 40 ∧ c.sched.isEmpty
@@ -162,6 +162,13 @@ def step (s : Sess) (c : Cmd) : Sess × String × String :=
     let (st, r, m) := Arr.new cap (growF f) (exGeF f) m (if isNew then .conf else .libc)
     let m := if absurd then { m with nrefused := 0 } else m
     let sst : Stat := if cap = 0 ∨ exGeF f (Gen.CC_MAX_ELEMENTS / cap) ∨ cap > Gen.CC_MAX_ELEMENTS / 8 then .errInvalidCapacity else if refused then .errAlloc else .ok
+    (st, r, m, sst)
+  match c.op with
+  | "new" | "new_default" =>
+    let isNew := c.op == "new"
+    -- blocks the driver cannot materialise although the harness allocator would serve them
+    if tooBig isNew then ({ blind := true }, "S ?", "M ?") else
+    let (st, r, m, sst) := build isNew m
     let s' : Sess := { slots := [r, none, none, none], sslots := [if sst = .ok then some [] else none, none, none, none], mem := m,
                        sparse := c.str "obs" == some "sparse" }
     fin s' (fmtStat sst) (fmtStat st)
@@ -174,6 +181,11 @@ def step (s : Sess) (c : Cmd) : Sess × String × String :=
   let msg (t : String) := fin s s!"st=- {t}" s!"st=- {t}"
   match c.op with
   | "observe" => fin s "st=-" "st=-" true
+  | "mk_new" | "mk_new_default" =>
+    if (s.arr to).isSome then msg "slotbusy" else
+    if tooBig (c.op == "mk_new") then ({ s with blind := true }, "S ?", "M ?") else
+    let (st, r, m, sst) := build (c.op == "mk_new") s.mem
+    fin { (s.setArr to r).setLst to (if sst = .ok then some [] else none) with mem := m } (fmtStat sst) (fmtStat st)
   | "destroy" | "destroy_cb" =>
     let cb := c.op == "destroy_cb"
     let r := (List.range NSLOT).foldl (fun (acc : Sess × List Nat × List Nat) j =>
